@@ -179,6 +179,13 @@ def r_buf_pairing(ctx):
                 ctx.violation("R-BUF-REGISTER", f"{cname}.__init__", f"registers (task, quantity) in buffer.{side}",
                               f"stores found: {[(show(e.data['container']), show(e.data['key']), show(e.data['value'])) for e in st + other]}",
                               first_line(ctx.project, cname))
+            # a buffer access is a registration, not a constraint of its own: the level arithmetic is asserted by the solver from
+            # the registered accesses (R-BUF-ENCODING) - anything the access itself asserts narrows the placements
+            extra = [e for e in r.emissions if not ("_applied" in show(e.term) and e.term[0] in ("z3var",))]
+            for e in extra:
+                ctx.violation("R-BUF-REGISTER", f"{cname}.__init__", f"asserts {show(norm(e.term))[:70]}",
+                              f"on [{describe_config(r)[:80]}] {cname} asserts {show(norm(e.term))[:200]}: a buffer access only registers "
+                              f"(task, quantity); an assertion of its own removes schedules the buffer allows", loc(e))
 
 
 def _no_dup_semantic(a, cs, z) -> bool:
